@@ -143,7 +143,12 @@ def check_names(program, rep):
 
 
 def check_optional(program, rep):
+    """Every use of a None-defaulted option reads the per-call value unless
+    that value is None (identity test), else the value given at construction.
+    Decided on the paths of __call__ (helpers that resolve the options are
+    followed)."""
     f = program.method('DirectoryResourcePopulator', '__call__')
+    cls = program.cls('DirectoryResourcePopulator')
     a = f.node.args
     defaults = dict(zip([x.arg for x in reversed(a.args)],
                         reversed(a.defaults)))
@@ -151,41 +156,73 @@ def check_optional(program, rep):
             and d.value is None]
     rep.floor('C16.optional', 'None-defaulted options of __call__',
               len(opts), 3)
+    exits = Walker(program, _D(program)).run(f, cls)
     for p in sorted(opts):
-        assigns = [n for n in ast.walk(f.node) if isinstance(
-            n, (ast.Assign, ast.AugAssign)) and any(
-                norm(t) == p for t in (n.targets if isinstance(n, ast.Assign)
-                                       else [n.target]))]
-        ok = False
-        why = f'`{p}` never falls back to the value given at construction'
-        if len(assigns) == 1 and isinstance(assigns[0], ast.Assign) \
-                and norm(assigns[0].value) == f'self.{p}':
-            guard = [n for n in ast.walk(f.node) if isinstance(n, ast.If)
-                     and assigns[0] in n.body and norm(n.test) == f'{p} is None'
-                     and not n.orelse]
-            if guard:
-                ok = True
-            else:
-                why = (f'`{p}` falls back to self.{p} without an identity '
-                       'test against None')
-        elif len(assigns) == 1 and isinstance(assigns[0], ast.Assign) \
-                and isinstance(assigns[0].value, ast.IfExp) and norm(
-                    assigns[0].value.test) in (f'{p} is None',
-                                               f'{p} is not None'):
-            v = assigns[0].value
-            a_, b_ = (v.body, v.orelse) if norm(v.test) == f'{p} is None' \
-                else (v.orelse, v.body)
-            ok = norm(a_) == f'self.{p}' and norm(b_) == p
-            why = f'`{p}` is rebound by "{norm(assigns[0])}"'
-        elif assigns:
-            why = (f'`{p}` is rebound by "{norm(assigns[0])}": a falsy value '
-                   '(False, "") given per call is taken for "not given" and '
-                   'the constructor value is used instead')
-        rep.check(ok, 'C16.optional', f.where,
-                  assigns[0] if assigns else p,
-                  f'{p}: per-call value wins unless it is None', why,
-                  line=getattr(assigns[0], 'lineno', f.node.lineno)
-                  if assigns else f.node.lineno)
+        good = {f'self.{p} if {p} is None else {p}',
+                f'{p} if {p} is not None else self.{p}',
+                f'{p} if not {p} is None else self.{p}'}
+        bad = None
+        n_use = 0
+        for ex in exits:
+            is_none = None
+            for e in ex.state.trace:
+                if e.sym is None or e.kind not in ('cond', 'call', 'local',
+                                                   'store', 'for'):
+                    continue
+                t = e.sym.text
+                if e.kind == 'cond' and t == f'{p} is None':
+                    is_none = e.extra
+                    continue
+                names = {n.id for n in ast.walk(e.sym.node)
+                         if isinstance(n, ast.Name)}
+                attrs = {norm(n) for n in ast.walk(e.sym.node)
+                         if isinstance(n, ast.Attribute)}
+                if p not in names and f'self.{p}' not in attrs:
+                    continue
+                if e.kind == 'local' and isinstance(e.target, ast.Name) \
+                        and e.target.id == p:
+                    continue            # the fallback assignment itself
+                if e.kind == 'call' and isinstance(e.sym.node, ast.Call) and (
+                        dotted(e.sym.node.func) or '').split('.')[-1] \
+                        .startswith('_') and getattr(e, 'func', None) \
+                        is not None:
+                    continue            # handed to a helper that is followed
+                n_use += 1
+                # strip the accepted conditional forms, then look at what
+                # remains of the option in the expression
+                rest = t
+                for g in good:
+                    rest = rest.replace(f'({g})', 'OK').replace(g, 'OK')
+                try:
+                    tree = ast.parse(rest, mode='eval').body
+                except SyntaxError:
+                    tree = e.sym.node
+                bare = any(isinstance(n, ast.Name) and n.id == p
+                           for n in ast.walk(tree))
+                ctor = any(norm(n) == f'self.{p}' for n in ast.walk(tree)
+                           if isinstance(n, ast.Attribute))
+                if bare and is_none is not False:
+                    bad = bad or (e.node, f'`{p}` is used ({t[:80]}) on a path '
+                                  f'that has not established "{p} is not '
+                                  'None": a falsy value (False, "") given per '
+                                  'call is taken for "not given", or None '
+                                  'itself is used')
+                if ctor and is_none is not True:
+                    bad = bad or (e.node, f'the constructor value self.{p} is '
+                                  f'used ({t[:80]}) on a path that has not '
+                                  f'established "{p} is None": a per-call '
+                                  'value is ignored')
+        if n_use == 0:
+            rep.inconclusive('C16.optional', f.where, p,
+                             f'no use of the option `{p}` found on the paths '
+                             'of __call__', line=f.node.lineno)
+            continue
+        rep.check(bad is None, 'C16.optional', f.where,
+                  bad[0] if bad else p,
+                  f'{p}: per-call value wins unless it is None', bad[1]
+                  if bad else '', line=getattr(bad[0], 'lineno',
+                                               f.node.lineno)
+                  if bad else f.node.lineno)
 
 
 def check_forward(program, rep):
@@ -363,9 +400,15 @@ def check_body(program, rep):
             continue
         isfile = cd.get(f'{pt}.isfile({path})')
         isdir = cd.get(f'{pt}.isdir({path})')
-        trim = cd.get('trim_extensions')
-        if trim is None:
-            trim = cd.get('self.trim_extensions')
+        def _opt(name):
+            for t_ in (name, f'self.{name}',
+                       f'self.{name} if {name} is None else {name}',
+                       f'{name} if {name} is not None else self.{name}',
+                       f'{name} if not {name} is None else self.{name}'):
+                if cd.get(t_) is not None:
+                    return cd.get(t_)
+            return None
+        trim = _opt('trim_extensions')
         rel = (f'{pt}.normpath({pt}.relpath({path}, {rootv})).replace('
                f'{pt}.sep, ResourceMap.split_char)')
         key = f'{pt}.splitext({rel})[0]' if (trim is True and isfile is True) \
@@ -420,9 +463,7 @@ def check_body(program, rep):
                      'the conflict is never found and the older handle is '
                      'overwritten instead of nested')
         # --- layer
-        nest = cd.get('nest_on_conflict')
-        if nest is None:
-            nest = cd.get('self.nest_on_conflict')
+        nest = _opt('nest_on_conflict')
         hnd = f'{mp}.get({key})'
         hit = [(t, v) for t, v in cd.items() if t.startswith(f'{hnd} is ')
                and 'handles.maps[0]' in t]
